@@ -39,6 +39,12 @@ def evaluate(entry: str = "systems") -> Evaluator:
     return ev
 
 
+def unreached_modules(ev: Evaluator) -> List[str]:
+    """Shipped unit modules that importing `measured.systems` does not load (a new data module nobody wired in yet):
+    they are still part of the package and are evaluated on their own."""
+    return [m for m in shipped_modules() if m not in set(ev.order) and m not in ("systems", "cli", "json", "__main__", "compat")]
+
+
 def shipped_modules() -> List[str]:
     out = []
     for fn in sorted(os.listdir(SRC)):
@@ -120,6 +126,8 @@ def run(rep: Report) -> None:
              "to a unit made of factors the target decomposes into", floor=120)
     ev = evaluate()
     check_tables(rep, ev)
+    for m in unreached_modules(ev):
+        check_tables(rep, evaluate(entry=m), tag=m)
     rep.analysed.update({
         "modules_in_import_order": ev.order,
         "equivalence_edges": len(ev.edges),
